@@ -1,7 +1,7 @@
 """Tie A tables of C16: the warning-level -> flags table, the -w choices, and every code location
 that can observe a verbosity / path-formatting option."""
 from tables.util import llist, lstr
-from tables.diagscan import verbosity_readers
+from tables.diagscan import verbosity_readers, diagnostic_sites
 
 NAME = "C16"
 
@@ -33,6 +33,9 @@ def tables():
     readers = verbosity_readers()
     if not readers:
         raise ValueError("verbosity reader scan found nothing")
+    sites = [x for x in diagnostic_sites() if x["file"] != "rattr/error/error.py"]
+    if len(sites) < 20:
+        raise ValueError("diagnostic call-site scan found implausibly few calls")
     return [
         f"def warnChoices : List String := {llist(choices)}",
         f"def warnDefault : String := {lstr(default)}",
@@ -46,4 +49,7 @@ def tables():
         "/-- every (file, enclosing function) in rattr/ that mentions a verbosity / path-format option or a renderer -/",
         "def verbosityReaders : List (String × String) := ["
         + ",\n  ".join(f"({lstr(f)}, {lstr(fn)})" for f, fn in readers) + "]",
+        "/-- every call of a level function outside rattr/error/error.py: (file, enclosing function, level, k) with k numbering the calls of that level in that function in source order -/",
+        "def diagSites : List (String × String × String × Nat) := ["
+        + ",\n  ".join(f"({lstr(x['file'])}, {lstr(x['fn'])}, {lstr(x['level'])}, {x['k']})" for x in sites) + "]",
     ]
